@@ -39,7 +39,7 @@ Proof.
     + (* EGroup *) eexists _, _. split; [reflexivity|]. repeat split; reflexivity.
     + (* ENumLit *) cbn [canon] in Hc. destruct tok as [|c r]; [discriminate|]. cbn [num_tok_ok] in Hc.
       eexists _, _. split; [reflexivity|]. cbn [tokc].
-      destruct (is_digit c) eqn:D.
+      destruct (is_ascii_digit c) eqn:D.
       * destruct (digit_not _ D) as (A1 & A2 & A3 & A4 & _). repeat split; auto.
       * cbn [orb] in Hc. apply andb_prop in Hc. destruct Hc as [Hc _]. apply N.eqb_eq in Hc. subst c. repeat split; reflexivity.
     + (* EFunc *) rewrite canon_func in Hc. apply andb_prop in Hc. destruct Hc as [_ Hf]. unfold func_ok in Hf.
@@ -86,6 +86,7 @@ Ltac len := unfold tok, str in *; repeat (rewrite ?app_length in *; cbn [length 
 Ltac andbs H := repeat (apply andb_prop in H; let H' := fresh H in destruct H as [H H']).
 
 Section RT.
+Variable fl : flags.
 Variable ns : str -> option str.
 Variable pe : nat -> list tok -> res (expr * list tok).
 Variables lf B K : nat.
@@ -166,7 +167,7 @@ Qed.
 
 Lemma nodetest_rt : forall t, ntest_ok t = true -> forall rest,
   look_c rest ch_lparen 0 = false -> look_c rest ch_colon 0 = false ->
-  p_nodetest ns (pr_ntest t ++ rest) = Ok (t, rest).
+  p_nodetest fl ns (pr_ntest t ++ rest) = Ok (t, rest).
 Proof.
   intros t Ht rest R1 R2. unfold p_nodetest.
   destruct t as [| |[s|]| |q l|]; cbn [ntest_ok] in Ht; try discriminate.
@@ -183,9 +184,9 @@ Proof.
     cbn [tl]. unfold lp, rp. rewrite !expect_ok. reflexivity.
   - destruct q; try discriminate. destruct l as [n|].
     + cbn [pr_ntest app]. rewrite !look_c_S, R1, R2.
-      destruct n as [|c n']; [discriminate|]. cbn in Ht.
+      destruct n as [|c n']; [discriminate|]. assert (Hv := Ht). cbn [valid_ncname] in Ht. apply andb_prop in Ht. destruct Ht as [Ht _].
       destruct (name_start_not _ Ht) as (_ & _ & _ & _ & _ & _ & _ & _ & _ & _ & A & _).
-      cbn [tokc]. rewrite A. cbn [cur_tok]. unfold is_nodetest_tok.
+      cbn [tokc]. rewrite A. cbn [cur_tok]. rewrite Hv. cbn [negb]. rewrite andb_false_r. unfold is_nodetest_tok.
       unfold is_name_start in Ht. rewrite orb_comm in Ht.
       replace (str_eqb (c :: n') [ch_asterisk] || N.eqb c ch_lowline || is_letter c)%bool with true; [reflexivity|].
       rewrite <- orb_assoc. rewrite Ht. rewrite orb_true_r. reflexivity.
@@ -204,7 +205,7 @@ Proof. intros. rewrite orb_true_r. reflexivity. Qed.
 Lemma step_rt : forall a t ps, axis_ok a = true -> ntest_ok t = true -> canon_preds ps = true -> size_preds ps <= K ->
   forall d rest, length (pr_step1 (a, t, ps) ++ rest) <= B -> d + dep_preds ps <= gen_xpc_max_nesting ->
     N.eqb (tokc rest) ch_lbrack = false -> look_c rest ch_lparen 0 = false -> look_c rest ch_colon 0 = false ->
-    p_step ns pe lf d (pr_step1 (a, t, ps) ++ rest) = Ok ((a, t, ps), rest).
+    p_step fl ns pe lf d (pr_step1 (a, t, ps) ++ rest) = Ok ((a, t, ps), rest).
 Proof.
   intros a t ps Ha Ht Hp Hs d rest HB Hd R0 R1 R2.
   destruct (axis_facts a Ha) as (A1 & A2 & A3 & A4 & A5 & A6).
@@ -220,7 +221,7 @@ Qed.
 Lemma steps_rt : forall st, st <> [] -> canon_steps st = true -> size_steps st <= K ->
   forall m d rest, length (pr_steps st ++ rest) <= B -> length (pr_steps st ++ rest) < m ->
     d + dep_steps st <= gen_xpc_max_nesting -> stop_path rest = true ->
-    p_steps ns pe lf m d (pr_steps st ++ rest) = Ok (st, rest).
+    p_steps fl ns pe lf m d (pr_steps st ++ rest) = Ok (st, rest).
 Proof.
   induction st as [|[[a t] ps] r IH]; intros NE Hc Hs m d rest HB Hm Hd Hr; [congruence|].
   cbn [canon_steps] in Hc. andbs Hc. cbn [size_steps] in Hs. cbn [dep_steps] in Hd.
@@ -237,8 +238,8 @@ Qed.
 Lemma locpath_rt : forall st, canon (EPath None [] st) = true -> expr_size (EPath None [] st) <= K ->
   forall d rest, length (pr (EPath None [] st) ++ rest) <= B -> d + idepth (EPath None [] st) <= gen_xpc_max_nesting ->
     stop_path rest = true -> (ends_root (EPath None [] st) = true -> root_ok rest = true) ->
-    p_locpath ns pe lf d (pr (EPath None [] st) ++ rest) = Ok (EPath None [] st, rest) /\
-    primary_kind (pr (EPath None [] st) ++ rest) = PkPath.
+    p_locpath fl ns pe lf d (pr (EPath None [] st) ++ rest) = Ok (EPath None [] st, rest) /\
+    primary_kind fl (pr (EPath None [] st) ++ rest) = PkPath.
 Proof.
   intros st Hc Hs d rest HB Hd Hr Hroot.
   rewrite canon_path_none in Hc. cbn [isnil andb] in Hc. rewrite size_path in Hs. rewrite idepth_path in Hd.
@@ -248,10 +249,10 @@ Proof.
   assert (NR : forall a t ps r, axis_ok a = true -> canon_steps ((a, t, ps) :: r) = true ->
                size_steps ((a, t, ps) :: r) <= K -> d + dep_steps ((a, t, ps) :: r) <= gen_xpc_max_nesting ->
                length (pr_steps ((a, t, ps) :: r) ++ rest) <= B ->
-               p_locpath ns pe lf d (pr_steps ((a, t, ps) :: r) ++ rest) = Ok (EPath None [] ((a, t, ps) :: r), rest) /\
-               primary_kind (pr_steps ((a, t, ps) :: r) ++ rest) = PkPath).
+               p_locpath fl ns pe lf d (pr_steps ((a, t, ps) :: r) ++ rest) = Ok (EPath None [] ((a, t, ps) :: r), rest) /\
+               primary_kind fl (pr_steps ((a, t, ps) :: r) ++ rest) = PkPath).
   { intros a0 t0 ps0 r0 Ha C Sz Dp Ln.
-    pose proof (axis_facts2 a0 Ha) as F.
+    pose proof (axis_facts2 fl a0 Ha) as F.
     split.
     2:{ cbn [pr_steps app]. apply (F _). }
     unfold p_locpath.
@@ -273,7 +274,7 @@ Proof.
   - cbn [pr_steps app]. specialize (Hroot eq_refl). unfold root_ok in Hroot.
     destruct (isnil rest) eqn:E1; cbn [negb andb]; [reflexivity|]. cbn [orb] in Hroot. rewrite Hroot. reflexivity.
   - assert (C := Hc). cbn [canon_steps] in C. andbs C.
-    pose proof (axis_facts2 a1 C) as F.
+    pose proof (axis_facts2 fl a1 C) as F.
     assert (E : root_alone (pr_steps ((a1, t1, ps1) :: r1) ++ rest) = false) by (cbn [pr_steps app]; apply (F _)).
     assert (E2 : isnil (pr_steps ((a1, t1, ps1) :: r1) ++ rest) = false) by reflexivity.
     rewrite E, E2. cbn [negb andb].
@@ -285,37 +286,39 @@ Qed.
 Lemma prim_rt : forall e, is_prim e = true -> canon e = true -> expr_size e <= K ->
   forall d rest, length (pr e ++ rest) <= B -> d + idepth e <= gen_xpc_max_nesting ->
     look_c rest ch_lparen 0 = false -> look_c rest ch_colon 0 = false ->
-    p_primary ns pe lf d (pr e ++ rest) = Ok (e, rest).
+    p_primary fl ns pe lf d (pr e ++ rest) = Ok (e, rest).
 Proof.
   intros e Hp Hc Hs d rest HB Hd R1 R2. unfold p_primary.
   destruct e; try discriminate Hp.
   - (* ELiteral *) cbn [canon] in Hc. destruct (literal_rt s rest Hc) as (P1 & P2 & _).
     cbn [pr app]. unfold primary_kind. cbv zeta. rewrite P2. rewrite P1. reflexivity.
   - (* EVar *) cbn [canon] in Hc. andbs Hc. destruct ns0; [|discriminate]. cbn [pr app].
-    change (primary_kind ([ch_dollar] :: local :: rest)) with PkVar. cbn [tl]. unfold p_qname.
+    change (primary_kind fl ([ch_dollar] :: local :: rest)) with PkVar. cbn [tl]. unfold p_qname.
     rewrite look_c_S, R2. cbn [cur_tok tl]. rewrite Hc0. reflexivity.
   - (* EGroup *) cbn [canon] in Hc. cbn [pr app]. rewrite <- app_assoc. cbn [app].
-    change (primary_kind (lp :: pr e ++ rp :: rest)) with PkGroup. cbn [tl].
+    change (primary_kind fl (lp :: pr e ++ rp :: rest)) with PkGroup. cbn [tl].
     cbn [expr_size idepth] in *.
     rewrite (Hpe e ltac:(lia) Hc d); [|cbn [pr] in HB; len|lia|reflexivity].
     unfold rp. rewrite expect_ok. reflexivity.
   - (* ENumLit *) cbn [canon] in Hc. destruct tok as [|c r]; [discriminate|]. cbn [num_tok_ok] in Hc. cbn [pr app].
-    assert (PK : primary_kind ((c :: r) :: rest) = PkNumber).
+    assert (PK : primary_kind fl ((c :: r) :: rest) = PkNumber).
     { unfold primary_kind. cbn [tokc cur_tok]. cbv zeta.
-      destruct (is_digit c) eqn:D.
-      - destruct (digit_not _ D) as (_ & _ & _ & _ & A5 & A6 & A7 & A8). rewrite A5, A6, A7, A8. cbn [orb].
+      destruct (is_ascii_digit c) eqn:D.
+      - destruct (digit_not _ D) as (_ & _ & _ & _ & A5 & A6 & A7 & A8 & _ & A9). rewrite A5, A6, A7, A8, (A9 fl). cbn [orb].
         rewrite orb_true_r. reflexivity.
       - cbn [orb] in Hc. apply andb_prop in Hc. destruct Hc as [Hc Hc']. apply N.eqb_eq in Hc. subst c.
         change (N.eqb ch_fullstop ch_apos) with false. change (N.eqb ch_fullstop ch_quote) with false.
         change (N.eqb ch_fullstop ch_dollar) with false. change (N.eqb ch_fullstop ch_lparen) with false.
-        cbn [orb]. rewrite N.eqb_refl. cbn [andb]. rewrite Hc'. reflexivity. }
+        cbn [orb]. rewrite N.eqb_refl. cbn [andb].
+        destruct r as [|c1 r1]; [discriminate|]. destruct (digit_not _ Hc') as (_ & _ & _ & _ & _ & _ & _ & _ & _ & A9).
+        rewrite (A9 fl). reflexivity. }
     unfold tok, str in *. rewrite PK. reflexivity.
   - (* EFunc *) rewrite canon_func in Hc. andbs Hc. unfold func_ok in Hc0. andbs Hc0.
     rewrite size_func in Hs. rewrite idepth_func in Hd. rewrite pr_func in *. cbn [app] in *. rewrite <- app_assoc in *. cbn [app] in *.
     destruct name as [|c nr]; [discriminate|]. cbn [first_name_start] in Hc0.
     destruct (name_start_not _ Hc0) as (_ & _ & _ & _ & A5 & A6 & A7 & A8 & A9 & A10 & _).
-    assert (PK : primary_kind ((c :: nr) :: lp :: pr_args args ++ rp :: rest) = PkCall).
-    { unfold primary_kind. cbn [tokc cur_tok]. cbv zeta. rewrite A5, A6, A7, A8, A9, A10. reflexivity. }
+    assert (PK : primary_kind fl ((c :: nr) :: lp :: pr_args args ++ rp :: rest) = PkCall).
+    { unfold primary_kind. cbn [tokc cur_tok]. cbv zeta. rewrite A5, A6, A7, A8, A9, (not_digit_num fl _ A10). reflexivity. }
     unfold tok, str in *. rewrite PK. unfold p_funcall. rewrite look_c_S. change (look_c (lp :: pr_args args ++ rp :: rest) ch_colon 0) with false.
     cbn [cur_tok tl].
     destruct (func_kind (c :: nr)) as [| |lo hi|]; try discriminate.
@@ -328,7 +331,7 @@ Qed.
 Lemma path_rt : forall e, is_pathlevel e = true -> canon e = true -> expr_size e <= K ->
   forall d rest, length (pr e ++ rest) <= B -> d + idepth e <= gen_xpc_max_nesting -> stop_path rest = true ->
     (ends_root e = true -> root_ok rest = true) ->
-    p_path ns pe lf d (pr e ++ rest) = Ok (e, rest).
+    p_path fl ns pe lf d (pr e ++ rest) = Ok (e, rest).
 Proof.
   intros e Hp Hc Hs d rest HB Hd Hr Hroot.
   destruct (sp_facts _ Hr) as (S1 & S2 & S3 & S4).
@@ -383,7 +386,7 @@ Lemma union_tail_rt : forall l, canon_list l = true -> forallb is_pathlevel l = 
   forall m d rest, length (pr_utail l ++ rest) <= B -> length (pr_utail l ++ rest) < m ->
     d + dep_list l <= gen_xpc_max_nesting -> stopb 0 rest = true ->
     (ends_root_list l = true -> root_ok rest = true) ->
-    p_union_rest ns pe lf m d (pr_utail l ++ rest) = Ok (l, rest).
+    p_union_rest fl ns pe lf m d (pr_utail l ++ rest) = Ok (l, rest).
 Proof.
   induction l as [|x r IH]; intros Hc Hp Hs m d rest HB Hm Hd Hr Hroot.
   - destruct m; [cbn in Hm; lia|]. cbn [pr_utail app p_union_rest]. rewrite (stopb0_bar _ Hr). reflexivity.
@@ -402,7 +405,7 @@ Qed.
 Lemma union_rt : forall e, elvl e = 0 -> is_neg e = false -> canon e = true -> expr_size e <= K ->
   forall d rest, length (pr e ++ rest) <= B -> d + idepth e <= gen_xpc_max_nesting -> stopb 0 rest = true ->
     (ends_root e = true -> root_ok rest = true) ->
-    p_union ns pe lf d (pr e ++ rest) = Ok (e, rest).
+    p_union fl ns pe lf d (pr e ++ rest) = Ok (e, rest).
 Proof.
   intros e L0 N0 Hc Hs d rest HB Hd Hr Hroot. unfold p_union.
   destruct (is_union e) eqn:EU.
@@ -421,7 +424,7 @@ Qed.
 Lemma unary_rt : forall e, elvl e = 0 -> canon e = true -> expr_size e <= K ->
   forall m d rest, length (pr e ++ rest) <= B -> length (pr e ++ rest) < m -> d + idepth e <= gen_xpc_max_nesting ->
     stopb 0 rest = true -> (ends_root e = true -> root_ok rest = true) ->
-    p_unary ns pe lf m d (pr e ++ rest) = Ok (e, rest).
+    p_unary fl ns pe lf m d (pr e ++ rest) = Ok (e, rest).
 Proof.
   induction e; intros L0 Hc Hs m d rest HB Hm Hd Hr Hroot; try discriminate L0;
     try (destruct m; [lia|]; cbn [p_unary];
@@ -536,7 +539,7 @@ End Levels.
 Lemma level_rt : forall L e, canon e = true -> elvl e <= L -> expr_size e <= K ->
   forall d rest, length (pr e ++ rest) <= B -> d + idepth e <= gen_xpc_max_nesting -> stopb L rest = true ->
     (ends_root e = true -> root_ok rest = true) ->
-    p_level ns pe lf L d (pr e ++ rest) = Ok (e, rest).
+    p_level fl ns pe lf L d (pr e ++ rest) = Ok (e, rest).
 Proof.
   induction L as [|l IH]; intros e Hc Hl Hs d rest HB Hd Hr Hroot.
   - cbn [p_level]. apply unary_rt; auto; lia.
@@ -544,35 +547,35 @@ Proof.
     assert (SUBl : forall e0, canon e0 = true -> elvl e0 < S l -> expr_size e0 <= K ->
               forall rest0, length (pr e0 ++ rest0) <= B -> d + idepth e0 <= gen_xpc_max_nesting ->
                 stopb (S l - 1) rest0 = true -> (ends_root e0 = true -> root_ok rest0 = true) ->
-                p_level ns pe lf l d (pr e0 ++ rest0) = Ok (e0, rest0)).
+                p_level fl ns pe lf l d (pr e0 ++ rest0) = Ok (e0, rest0)).
     { intros e0 C0 L0 S0 rest0 B0 D0 R0 Rt0. apply IH; auto; try lia.
       replace (S l - 1) with l in R0 by lia. exact R0. }
     destruct (right_nested (S l)) eqn:RN.
-    + apply (rlevel_rt d (S l) (p_level ns pe lf l d) ltac:(lia) SUBl (S (expr_size e))); auto; lia.
-    + apply (llevel_rt d (S l) (p_level ns pe lf l d) ltac:(lia) SUBl RN); auto.
+    + apply (rlevel_rt d (S l) (p_level fl ns pe lf l d) ltac:(lia) SUBl (S (expr_size e))); auto; lia.
+    + apply (llevel_rt d (S l) (p_level fl ns pe lf l d) ltac:(lia) SUBl RN); auto.
 Qed.
 
 End RT.
 
 (* Expr() on the printed tokens of a canonical tree returns the tree and stops at the follow token *)
-Theorem p_expr_rt : forall ns k e, expr_size e < k -> canon e = true -> forall n d rest,
+Theorem p_expr_rt : forall fl ns k e, expr_size e < k -> canon e = true -> forall n d rest,
   length (pr e ++ rest) < n -> S d + idepth e <= gen_xpc_max_nesting -> follow rest = true ->
-  p_expr ns n d (pr e ++ rest) = Ok (e, rest).
+  p_expr fl ns n d (pr e ++ rest) = Ok (e, rest).
 Proof.
-  intros ns. induction k as [|k IH]; intros e Hk Hc n d rest Hn Hd Hf; [lia|].
+  intros fl ns. induction k as [|k IH]; intros e Hk Hc n d rest Hn Hd Hf; [lia|].
   destruct n as [|n]; [lia|]. cbn [p_expr].
   assert (D : Nat.ltb gen_xpc_max_nesting (S d) = false) by (apply Nat.ltb_ge; lia). rewrite D.
-  apply (level_rt ns (p_expr ns n) (S n) n (expr_size e)); auto; try lia.
+  apply (level_rt fl ns (p_expr fl ns n) (S n) n (expr_size e)); auto; try lia.
   - intros e0 S0 C0 d0 rest0 B0 D0 F0. apply IH; auto. lia.
   - apply elvl_le6.
   - apply follow_stopb. exact Hf.
   - intros _. apply follow_root_ok. exact Hf.
 Qed.
 
-Theorem parse_print_m : forall ns e, canon e = true -> S (idepth e) <= gen_xpc_max_nesting ->
-  parse ns (pr e) = Ok e.
+Theorem parse_print_m : forall fl ns e, canon e = true -> S (idepth e) <= gen_xpc_max_nesting ->
+  parse fl ns (pr e) = Ok e.
 Proof.
-  intros ns e Hc Hd. unfold parse.
-  pose proof (p_expr_rt ns (S (expr_size e)) e ltac:(lia) Hc (S (length (pr e))) 0 []) as H.
+  intros fl ns e Hc Hd. unfold parse.
+  pose proof (p_expr_rt fl ns (S (expr_size e)) e ltac:(lia) Hc (S (length (pr e))) 0 []) as H.
   rewrite app_nil_r in H. rewrite H; auto; lia.
 Qed.
